@@ -177,7 +177,7 @@ def joinOrDash (l : List String) : String := if l.isEmpty then "-" else ",".inte
 def isHexCh (c : Char) : Bool := c.isDigit || ('a' ≤ c && c ≤ 'f') || c == '-'
 
 mutual
-/-- node := u<hex> | q<hex> | o[field;..] | a[node;..] -/
+/-- node := u<hex> | q<hex> | o[field;..] | a[node;..] | h<namehex>:node -/
 def parseNode : Nat → List Char → Option (Node × List Char)
   | 0, _ => none
   | f + 1, cs =>
@@ -186,6 +186,12 @@ def parseNode : Nat → List Char → Option (Node × List Char)
     | 'q' :: r => (parseHex (String.ofList (r.takeWhile isHexCh))).map (fun b => (.leaf ⟨b, true⟩, r.dropWhile isHexCh))
     | 'o' :: '[' :: r => (parseFieldsD f r).map (fun (fs, r) => (.obj fs, r))
     | 'a' :: '[' :: r => (parseNodes f r).map (fun (vs, r) => (.arr vs, r))
+    | 'h' :: r =>
+      (match r.dropWhile isHexCh with
+       | ':' :: r2 =>
+         (parseHex (String.ofList (r.takeWhile isHexCh))).bind (fun n =>
+           (parseNode f r2).map (fun (b, r3) => (.hdr n b, r3)))
+       | _ => none)
     | _ => none
 def parseFieldsD : Nat → List Char → Option (List (Bytes × Op × Node) × List Char)
   | 0, _ => none
